@@ -16,8 +16,11 @@ def run_checks(dst):
     if rc != 0: return None
     hits = {}
     try:
-        for p, cmd in CMDS.items():
-            rc, out = sh(cmd + ' --no-write', cwd=VERIF)
+        # the 18 registered quick commands, side by side, against /repo as patched
+        from concurrent.futures import ThreadPoolExecutor
+        with ThreadPoolExecutor(16) as ex:
+            res = list(ex.map(lambda pc: (pc[0],) + sh(pc[1] + ' --no-write', cwd=VERIF), sorted(CMDS.items())))
+        for p, rc, out in res:
             if rc == 1:
                 hits[p] = sorted(set(re.findall(r'violated: \[(\w+)\]', out)))
             elif rc == 2:
@@ -108,7 +111,7 @@ def main():
     if sys.argv[1] == '--recheck-fast': return recheck_fast()
     resdir, outdir = sys.argv[1], sys.argv[2]
     rnd = int(sys.argv[3]) if len(sys.argv) > 3 else 1
-    letter = {1: {'A': 'A', 'B': 'B'}, 2: {'A': 'C', 'B': 'D'}, 3: {'A': 'E', 'B': 'F'}}[rnd]
+    letter = {1: {'A': 'A', 'B': 'B'}, 2: {'A': 'C', 'B': 'D'}, 3: {'A': 'E', 'B': 'F'}, 4: {'A': 'G', 'B': 'H'}, 5: {'A': 'I', 'B': 'J'}}[rnd]
     rows = []
     for f in sorted(os.listdir(resdir)):
         if not f.endswith('.json'): continue
